@@ -42,8 +42,8 @@ import (
 )
 
 func init() {
-	register("c03", "real pipeline: rotate.Bootstrap + 0..n rotate.Key on three stacks (memkm+memca, memkm+gcsca over in-memory storage, "+
-		"localkm+gcsca over local disk), endorse.VirtualFirmware of generated images/requests in every state, then verify.Endorsement of every "+
+	register("c03", "real pipeline: rotate.Bootstrap + 0..n rotate.Key on four stacks (memkm+memca, memkm+gcsca over in-memory storage, "+
+		"localkm+gcsca over local disk, gcpkms manager+signer over an in-process Cloud KMS service + gcsca over in-memory storage), endorse.VirtualFirmware of generated images/requests in every state, then verify.Endorsement of every "+
 		"endorsement (also those issued before later rotations) at the boundary times of both certificates and with own/foreign/empty/nil root "+
 		"pools; every listed SNP measurement and TDX MRTD re-presented for its configuration; inspect output re-verified with an independent "+
 		"rsa.VerifyPSS. Non-trivial: the endorsement was issued after at least one rotation or is verified after a later one; distinct by op line.", runC03)
@@ -54,12 +54,19 @@ type c03Stack struct {
 	signer *nonprod.Signer
 	kc     *keys.Context
 	clean  func()
+	// wrap adds the stack's own context values (the Cloud KMS stack needs its key ids)
+	wrap func(context.Context) context.Context
 }
+
+// c03Kinds is the number of stacks; kind 3 is the production stack of c03_kms.go.
+const c03Kinds = 4
 
 func newC03Stack(kind int, r *Rng) *c03Stack {
 	s := &nonprod.Signer{Rand: r}
-	st := &c03Stack{signer: s, clean: func() {}}
+	st := &c03Stack{signer: s, clean: func() {}, wrap: func(ctx context.Context) context.Context { return ctx }}
 	switch kind {
+	case 3:
+		return newC03KmsStack(r)
 	case 0:
 		st.name = "memkm+memca"
 		st.kc = &keys.Context{CA: memca.Create(), Signer: s, Random: r, Manager: &memkm.T{Signer: s}}
@@ -119,12 +126,12 @@ func runC03(c *Ctx) {
 	quoteV4 := rawQuote.(*tpb.QuoteV4)
 	nhist := c.N(3, 12)
 	maxRot := c.N(3, 5)
-	for kind := 0; kind < 3; kind++ {
+	for kind := 0; kind < c03Kinds; kind++ {
 		for h := 0; h < nhist; h++ {
 			st := newC03Stack(kind, r)
 			func() {
 				defer st.clean()
-				ctx0 := keys.NewContext(quietCtx(true), st.kc)
+				ctx0 := st.wrap(keys.NewContext(quietCtx(true), st.kc))
 				t0 := baseTime.Add(time.Duration(r.Intn(1000)) * time.Hour)
 				bctx := rotate.NewBootstrapContext(ctx0, &rotate.BootstrapContext{RootKeyCommonName: "root cn", RootKeySerial: big.NewInt(1),
 					SigningKeyCommonName: "signer cn", SigningKeySerial: big.NewInt(2), Now: t0})
